@@ -150,6 +150,9 @@ class _Pool:
                     {"kind": "graph", "name": "SB", "graph": {"name": "SB", "bind": {"cfgs": {"who": ["B"]}}, "nodes": [{"kind": "fn", "name": "sb", "params": [{"name": "x"}, {"name": "cfgs"}], "outs": ["sb_o"]}], "order": [0]}},
                 ], "order": [0, 1]}
                 outer_obj = {"who": ["outer"]}
+                if not ob:
+                    # built incrementally: the first nested graph, a binding of the outer graph's own, then add_nodes() for the sibling
+                    spec = dict(spec, add_nodes_after=1, bind={"x": 0})
                 graph, comp = build(spec, rt, flav, bind={"cfgs": outer_obj} if ob else None)
                 self.comps.append(comp)
                 self.siblings[(flav, ob)] = (graph, comp.nodes["SA"].graph.inputs.bound["cfgs"], comp.nodes["SB"].graph.inputs.bound["cfgs"], outer_obj)
